@@ -24,6 +24,19 @@ comparisons by PrimFloat.ltb/leb/eqb (false on NaN, like Rust), `f64::max/min` b
 Plain `+ - *` are the mathematical operations: an overflow (a debug-build panic) is not modelled
 here; the hand models that care carry their own overflow flag.
 
+Third batch (groups Reg, Trk, Batch, Crit, Cc, Cls): field-less enums become a generated Inductive with its
+`_eqb` (variants by name, `match` on them, methods taking `self`, associated functions `T::f(..)`); `opt ==
+Some(e)` / `== None`; let chains `if let Some(x) = e && c`; `& | % >>` (Z.land, Z.lor, Z.rem, Z.shiftr);
+narrowing `as u32` = `mod 2^32`; f64 <-> u32 casts; `is_finite`; atomic `fetch_max/fetch_min/fetch_add` as
+statements (max / min / wrapping sum stored); a call with outputs AND a value as the right-hand side of a
+`let` or inside `Some(..)`.  Four things are NOT translated but made explicit instead of approximated: a byte
+array / packet value is `tt` (its bytes are property C15's subject), so `Option<[u8; N]>` keeps "was one
+produced"; `self.<array>.copy_from_slice(&<slice param>[lo..hi])` is an extra output `Some (lo, hi)`; of a
+`&[u8]` parameter and of a `Vec` field only the length exists (`push` = +1); a listed untranslated method of
+self (OPAQUE_EFFECTS) may only be the LAST effect of a path and becomes an extra output `call_<m> = Some
+(arguments)`; `let e = &[mut] self.<array of struct>[i]` makes the function one of that single element
+(`e_slot` = i is an output, the element's fields are inputs/outputs named `e_<field>`).
+
 A function that cannot be translated (syntax outside the subset, missing) is reported in the
 JSON summary under "failed"; check.py treats that like a broken obligation.
 """
@@ -44,15 +57,26 @@ GROUP = {"backoff_delay": "Recon", "should_attempt_reconnect": "Recon", "record_
          "silence_pull_window_ms": "Stall", "is_briefly_silent": "Stall", "update_silence_pull": "Stall",
          "perform_window_recovery": "Recov", "cong_perform_window_recovery": "Recov",
          "conn_perform_window_recovery": "Recov",
-         "set_conn_timeout_ms": "Cfg"}
+         "set_conn_timeout_ms": "Cfg",
+         "reg_handle_reg3": "Reg", "reg_handle_reg_err": "Reg", "reg_handle_reg_ngp": "Reg",
+         "reg_clear_pending_if_timed_out": "Reg", "reg_build_reg1_for": "Reg", "reg_reg1_if_ngp_immediate": "Reg",
+         "reg_handle_reg2": "Reg", "reg_driver_pending_sends": "Reg",
+         "trk_insert": "Trk", "trk_get": "Trk",
+         "crit_extend_to": "Crit", "crit_is_critical_now": "Crit",
+         "cc_loss_permille": "Cc", "cc_update_backoff_efficacy": "Cc", "cc_observe_traffic": "Cc",
+         "cc_pick_climb_mode": "Cc", "cc_update_rtt_min": "Cc",
+         "cls_derive_max_delay_budget": "Cls", "cls_target_best_delay_ms": "Cls", "cls_target_safe_delay_ms": "Cls",
+         "cls_target_max_delay_ms": "Cls", "cls_pick_tier": "Cls",
+         "regime_from_bps": "Batch", "regime_batch_size": "Batch", "batch_queue_packet": "Batch",
+         "batch_set_regime": "Batch", "conn_recompute_batch_regime": "Batch"}
 # groups with a canonical signature: parameters = the self fields read in struct declaration order, then the
 # opaque getter inputs, then the Rust parameters in signature order; outputs in the same order.  (The four
 # earlier groups keep the order of first use in the body, which the lemmas of Proofs/Leaf{Recon,Live,Cong,
 # Seq}P.v are stated for.)  With a canonical order neither a reordering of reads in the body nor a swap of
 # two same-typed arguments of a wrapper can move a parameter under the lemma that applies it by position.
-CANONICAL_GROUPS = {"Stall", "Recov", "Cfg"}
+CANONICAL_GROUPS = {"Stall", "Recov", "Cfg", "Reg", "Trk", "Batch", "Crit", "Cc", "Cls"}
 # groups whose definitions may use f64 values (header additionally imports Floats, FConstants, Select)
-FLOAT_GROUPS = {"Stall", "Recov"}
+FLOAT_GROUPS = {"Stall", "Recov", "Batch", "Cc", "Cls"}
 CORE = "crates/srtla-core/src/"
 
 # (coq name, file, impl type or None for a free fn, fn name)
@@ -88,11 +112,45 @@ LEAVES = [
     ("conn_perform_window_recovery", CORE + "connection/mod.rs", "SrtlaConnection", "perform_window_recovery"),
     # runtime timeout clamp (C18)
     ("set_conn_timeout_ms", "src/config.rs", "DynamicConfig", "set_conn_timeout_ms"),
+    # ---- third batch ----
+    # registration manager (C07); packet bytes are C15's subject: a produced packet is `tt`
+    ("reg_handle_reg3", CORE + "registration/mod.rs", "SrtlaRegistrationManager", "handle_reg3"),
+    ("reg_handle_reg_err", CORE + "registration/mod.rs", "SrtlaRegistrationManager", "handle_reg_err"),
+    ("reg_handle_reg_ngp", CORE + "registration/mod.rs", "SrtlaRegistrationManager", "handle_reg_ngp"),
+    ("reg_clear_pending_if_timed_out", CORE + "registration/mod.rs", "SrtlaRegistrationManager", "clear_pending_if_timed_out"),
+    ("reg_build_reg1_for", CORE + "registration/mod.rs", "SrtlaRegistrationManager", "build_reg1_for"),
+    ("reg_reg1_if_ngp_immediate", CORE + "registration/mod.rs", "SrtlaRegistrationManager", "reg1_if_ngp_immediate"),
+    ("reg_handle_reg2", CORE + "registration/mod.rs", "SrtlaRegistrationManager", "handle_reg2"),
+    ("reg_driver_pending_sends", CORE + "registration/mod.rs", "SrtlaRegistrationManager", "reg_driver_pending_sends"),
+    # sequence tracker ring (C05): a function of the one element that is read / written (<local>_slot says which)
+    ("trk_insert", "src/sender/sequence.rs", "SequenceTracker", "insert"),
+    ("trk_get", "src/sender/sequence.rs", "SequenceTracker", "get"),
+    # critical window (C10): atomics as plain fields
+    ("crit_extend_to", CORE + "priority.rs", "CriticalWindow", "extend_to"),
+    ("crit_is_critical_now", CORE + "priority.rs", "CriticalWindow", "is_critical_now"),
+    # batch sender (C01): regime thresholds and the size-flush test
+    ("regime_from_bps", CORE + "connection/batch_send.rs", "BatchRegime", "from_bps"),
+    ("regime_batch_size", CORE + "connection/batch_send.rs", "BatchRegime", "batch_size"),
+    ("batch_queue_packet", CORE + "connection/batch_send.rs", "BatchSender", "queue_packet"),
+    ("batch_set_regime", CORE + "connection/batch_send.rs", "BatchSender", "set_regime"),
+    ("conn_recompute_batch_regime", CORE + "connection/mod.rs", "SrtlaConnection", "recompute_batch_regime"),
+    # per-link congestion controller (C16): the integer / comparison helpers around tick()
+    ("cc_loss_permille", CORE + "selection/link_cc.rs", "LinkCongestionState", "loss_permille"),
+    ("cc_update_backoff_efficacy", CORE + "selection/link_cc.rs", "LinkCongestionState", "update_backoff_efficacy"),
+    ("cc_observe_traffic", CORE + "selection/link_cc.rs", "LinkCongestionState", "observe_traffic"),
+    ("cc_pick_climb_mode", CORE + "selection/link_cc.rs", "LinkCongestionState", "pick_climb_mode"),
+    ("cc_update_rtt_min", CORE + "selection/link_cc.rs", "LinkCongestionState", "update_rtt_min"),
+    # weak-link classifier (C17): delay budget, the three tier targets, the tier cascade
+    ("cls_derive_max_delay_budget", CORE + "selection/classifier.rs", None, "derive_max_delay_budget"),
+    ("cls_target_best_delay_ms", CORE + "selection/classifier.rs", None, "target_best_delay_ms"),
+    ("cls_target_safe_delay_ms", CORE + "selection/classifier.rs", None, "target_safe_delay_ms"),
+    ("cls_target_max_delay_ms", CORE + "selection/classifier.rs", None, "target_max_delay_ms"),
+    ("cls_pick_tier", CORE + "selection/classifier.rs", None, "pick_tier"),
 ]
 
 # leaves whose equivalence lemma mentions leaf_<name>_asserts: the definition is emitted even when the
 # current body asserts nothing
-ALWAYS_ASSERTS = {"set_conn_timeout_ms"}
+ALWAYS_ASSERTS = {"set_conn_timeout_ms", "cls_derive_max_delay_budget"}
 # getters of untranslated component types that are read as an *input* of the leaf (named
 # <field path>_<getter>); everything else called on a component is a translation error
 OPAQUE_GETTERS = {("KalmanFilter", "value"): "f64", ("KalmanFilter", "velocity"): "f64"}
@@ -100,6 +158,16 @@ OPAQUE_GETTERS = {("KalmanFilter", "value"): "f64", ("KalmanFilter", "velocity")
 ATOMIC = {"AtomicU64": "u64", "AtomicU32": "u32", "AtomicI32": "i32", "AtomicBool": "bool", "AtomicUsize": "usize"}
 
 INT_TYPES = {"u8", "u16", "u32", "u64", "usize", "i32", "i64"}
+# field-less enums of the sources read (name -> [variants]); a value is a constructor of a generated Inductive
+ENUMS = {}
+DEFAULT_DERIVED = set()   # structs declared with #[derive(.. Default ..)]
+# byte arrays / packets are not translated here (their bytes are property C15's subject, tools/gen_wire.py):
+# a value of such a type is `tt : unit`, so `Option<[u8; N]>` keeps exactly "was a packet produced"
+OPAQUE_FNS = {"create_reg1_packet": "bytes", "create_reg2_packet": "bytes"}
+# methods of self that are not translated and may change any part of self: allowed only as the LAST effect
+# of a path (followed by nothing or a bare `return;`); the call and its arguments become an explicit output
+# `call_<name> : option (args)` (None on the paths that do not call it)
+OPAQUE_EFFECTS = {("SrtlaRegistrationManager", "handle_probe_response"), ("LinkCongestionState", "record_loss")}
 FIELD_PATHS = {}
 REGISTRY = {}   # rust method name -> {coq, origins, outs, rtype} of already translated leaves
 
@@ -176,6 +244,28 @@ def find_fn(src, impl, name):
     ret = ret[2:].strip() if ret.startswith("->") else ""
     e = match_brace(region, k)
     return params, ret, region[k + 1:e]
+
+
+def enum_variants(src_by_file):
+    """field-less enums: name -> [variant, ..] in declaration order (enums with payloads are left out)"""
+    out = {}
+    for src in src_by_file.values():
+        for m in re.finditer(r"\benum\s+(\w+)\s*\{", src):
+            e = match_brace(src, m.end() - 1)
+            body = re.sub(r"#\[[^\]]*\]", "", src[m.end():e])
+            vs = [v.strip() for v in body.split(",") if v.strip()]
+            if vs and all(re.match(r"[A-Za-z_]\w*$", v) for v in vs):
+                out.setdefault(m.group(1), vs)
+    return out
+
+
+def enum_decl(name):
+    vs = ENUMS[name]
+    cs = " | ".join("%s_%s" % (name, v) for v in vs)
+    eq = " | ".join("%s_%s, %s_%s" % (name, v, name, v) for v in vs)
+    return ("(* enum %s of the Rust source, variants in declaration order *)\nInductive %s := %s.\n"
+            "Definition %s_eqb (a b : %s) : bool :=\n  match a, b with %s => true | _, _ => false end.\n"
+            % (name, name, cs, name, name, eq))
 
 
 def struct_fields(src_by_file):
@@ -315,6 +405,18 @@ class P:
         k2, v2 = self.peek()
         if v2 in ("=", "+=", "-=", "*="):
             self.take()
+            if v2 == "=" and self.peek()[0] == "id" and self.peek()[1][:1].isupper() and self.peek(1)[1] == "{":
+                # struct literal `T { a, b: e }` (only as the whole right-hand side of an assignment)
+                tname = self.take()[1]
+                self.take()
+                flds = []
+                while self.peek()[1] != "}":
+                    fn_ = self.take()[1]
+                    flds.append((fn_, self.expr() if self.eat(":") else ("var", fn_)))
+                    self.eat(",")
+                self.expect("}")
+                self.expect(";")
+                return ("assign", e, ("structlit", tname, flds))
             rhs = self.expr()
             self.expect(";")
             if v2 != "=":
@@ -335,7 +437,16 @@ class P:
             var = self.take()[1]
             self.expect(")")
             self.expect("=")
-            scrut = self.expr(no_struct=True)
+            # the scrutinee of a `let` in a condition binds tighter than `&&` (let chains):
+            # `if let Some(x) = e && c { A } else { B }` = match e { Some(x) => if c { A } else { B }, None => B }
+            scrut = self.expr(no_struct=True, lvl=2)
+            chain = None
+            if self.eat("&&"):
+                if self.peek()[1] == "let":
+                    raise TErr("second `let` in a let chain")
+                chain = self.expr(no_struct=True, lvl=1)
+            if self.peek()[1] == "||":
+                raise TErr("`||` after a `let` condition")
             self.expect("{")
             a = self.block()
             b = []
@@ -345,6 +456,8 @@ class P:
                 else:
                     self.expect("{")
                     b = self.block()
+            if chain is not None:
+                a = [("expr", ("if", chain, a, b))]
             return ("iflet", var, scrut, a, b)
         c = self.expr(no_struct=True)
         self.expect("{")
@@ -419,6 +532,20 @@ class P:
     def postfix(self):
         e = self.atom()
         while True:
+            if self.peek()[1] == "." and self.peek(1)[1] == ".":
+                return e                                   # `lo..hi`: the range belongs to the enclosing `[ ]`
+            if self.peek()[1] == "[":
+                self.take()
+                lo = self.expr()
+                if self.eat("]"):
+                    e = ("index", e, lo)
+                    continue
+                if not (self.eat(".") and self.eat(".")):
+                    raise TErr("indexing other than [i] or a range [lo..hi]")
+                hi = self.expr()
+                self.expect("]")
+                e = ("slice", e, lo, hi)
+                continue
             if self.eat("."):
                 name = self.take()[1]
                 if self.peek()[1] == "(":
@@ -450,6 +577,14 @@ class P:
             return ("string",)
         if v == "(":
             e = self.expr()
+            if self.peek()[1] == ",":
+                items = [e]
+                while self.eat(","):
+                    if self.peek()[1] == ")":
+                        break
+                    items.append(self.expr())
+                self.expect(")")
+                return ("tuple", items)
             self.expect(")")
             return ("paren", e)
         if v == "if":
@@ -487,6 +622,12 @@ class Ctx:
         self.tail_types = []      # rust types of the values produced by tail / return expressions
         self.uses_float = False
         self.local_names = set()  # Coq names of the locals bound so far
+        self.used_enums = set()   # enums whose Inductive the group file must declare
+        self.pseudo = {}          # pseudo outputs (opaque calls, byte-array copies): name -> initial value
+        self.slot_keys = {}       # <slot local>_<field> -> canonical sort key
+        self.local_structs = {}   # local built by `T::default()` -> T
+        self.slot_len = {}        # slot local -> array length as written in the field's type
+        self.slot_base = {}       # slot local -> index path of the array field
 
     def field_type(self, path):
         ty = self.self_type
@@ -522,8 +663,22 @@ class Ctx:
         return name, rty
 
 
+def norm_type(rty):
+    """`[u8; N]` -> bytes, `[u8]` -> slice (inside Option<..> too)"""
+    rty = re.sub(r"\[\s*u8\s*;[^\]]*\]", "bytes", rty.strip())
+    return re.sub(r"\[\s*u8\s*\]", "slice", rty)
+
+
 def coq_type(rty):
-    rty = rty.strip()
+    rty = norm_type(rty)
+    if rty == "Self":
+        raise TErr("type Self outside an enum impl")
+    if rty in ENUMS:
+        return rty
+    if rty == "bytes":
+        return "unit"
+    if rty == "Option<bytes>":
+        return "option unit"
     if rty in INT_TYPES:
         return "Z"
     if rty == "bool":
@@ -572,7 +727,8 @@ FCAST = {("f64", "u64"): "Select.f64_as_u64", ("f64", "i32"): "Select.f64_as_i32
 SAT = {("saturating_sub", "u64"): "ssub", ("saturating_sub", "usize"): "ssub", ("saturating_sub", "u32"): "ssub",
        ("saturating_mul", "u64"): "sat_mul_u64", ("saturating_add", "u64"): "sat_add_u64",
        ("saturating_add", "u32"): "sat_add_u32", ("saturating_mul", "i32"): "sat_mul_i32",
-       ("saturating_add", "i32"): "sat_add_i32"}
+       ("saturating_add", "i32"): "sat_add_i32",
+       ("saturating_add", "usize"): "sat_add_u64", ("saturating_mul", "usize"): "sat_mul_u64"}   # usize = 64 bits (harness target)
 
 
 def sat_sub_i32(a, b):
@@ -624,8 +780,62 @@ def path_of(e):
     return None
 
 
+def strip_paren(e):
+    while e[0] == "paren":
+        e = e[1]
+    return e
+
+
+def is_some_or_none(e):
+    return (e[0] == "var" and e[1] == "None") or (e[0] == "fcall" and e[1] == "Some" and len(e[2]) == 1)
+
+
 def is_ordering(e):
     return e[0] == "var" and e[1].split("::")[0] == "Ordering" and "::" in e[1]
+
+
+def slot_of(e, env):
+    """`entry` / `*entry` where `let entry = &[mut] self.<array of T>[i]` -> (local name, T) ; else None"""
+    while e[0] in ("deref", "paren"):
+        e = e[1]
+    if e[0] == "var" and (env.v.get(e[1], (None, None))[1] or "").startswith("slot:"):
+        return e[1], env.v[e[1]][1].split(":")[1]
+    return None
+
+
+def slot_field(env, sname, f):
+    """field f of the array element a slot local refers to: an input/output named <local>_<f>"""
+    ctx = env.ctx
+    T = env.v[sname][1].split(":")[1]
+    if f not in ctx.structs.get(T, {}):
+        raise TErr("struct %s has no field %s" % (T, f))
+    nm = "%s_%s" % (sname, f)
+    if nm not in ctx.ptype:
+        if nm in ctx.local_names or nm in getattr(ctx, "fn_param_names", ()):
+            raise TErr("name clash on %s" % nm)
+        ctx.ptype[nm] = ctx.structs[T][f]
+        ctx.params.append((nm, coq_type(ctx.structs[T][f])))
+        ctx.slot_keys[nm] = ctx.slot_base[sname] + (list(ctx.structs[T]).index(f),)
+        FIELD_PATHS[(id(ctx), nm)] = ["<slot %s>" % sname, f]
+    return nm, ctx.ptype[nm]
+
+
+def vec_field(ctx, path):
+    return re.match(r"Vec<", ctx.field_type(path) or "") is not None
+
+
+def vec_len_name(ctx, path):
+    """a `Vec<_>` field is represented by its length only: input/output <path>_len"""
+    nm = "_".join(path) + "_len"
+    if "_".join(path) + "_is_empty" in ctx.ptype:
+        raise TErr("self.%s: both is_empty() and len()/push() in one function" % ".".join(path))
+    FIELD_PATHS[(id(ctx), nm)] = list(path) + ["len()"]
+    if nm not in ctx.ptype:
+        ctx.ptype[nm] = "usize"
+        ctx.params.append((nm, "Z"))
+        ctx.notes.append("%s = self.%s.len(): of a Vec only the length is translated (push = +1, the element pushed is not)"
+                         % (nm, ".".join(path)))
+    return nm
 
 
 def find_callee(recv, name, ctx):
@@ -641,6 +851,12 @@ def find_callee(recv, name, ctx):
 
 def find_free_callee(qualified):
     parts = qualified.split("::")
+    if len(parts) > 1 and (parts[-2], parts[-1]) in REGISTRY:
+        # associated function `Type::f(..)` without a receiver (all its inputs are arguments)
+        callee = REGISTRY[(parts[-2], parts[-1])]
+        if all(o[0] == "arg" for o in callee["origins"]):
+            return callee
+        return None
     callee = REGISTRY.get((None, parts[-1]))
     if callee is None:
         return None
@@ -658,7 +874,11 @@ def call_actuals(callee, base, args, env):
         raise TErr("call of %s with %d arguments" % (callee["coq"], len(args)))
     actual = []
     for origin in callee["origins"]:
-        if origin[0] == "field":
+        if origin[0] == "this":
+            if base is None:
+                raise TErr("method of an enum value called without a receiver")
+            actual.append(ev(field_expr(base), env)[0])         # the enum value itself: the receiver field
+        elif origin[0] == "field":
             if base is None:
                 raise TErr("free function with self inputs")
             if origin[1][-1].endswith("()"):
@@ -699,13 +919,27 @@ def ev(e, env):
         if n in ("true", "false"):
             return n, "bool"
         if n in env.v:
+            if env.v[n][1] == "slice":
+                raise TErr("slice %s used as a value" % n)
+            if (env.v[n][1] or "").startswith("localstruct:"):
+                # a local struct value is the tuple of its fields in declaration order
+                T = env.v[n][1].split(":")[1]
+                return "(" + ", ".join(env.v["%s_%s" % (n, f)][0] for f in ctx.structs[T]) + ")", T
             return env.v[n]
         base = n.split("::")[-1]
         if n.endswith("::MAX") or n.endswith("::MIN"):
             ty = n.split("::")[0]
-            tab = {"i32::MIN": "i32_min", "i32::MAX": "i32_max", "u64::MAX": "u64_max"}
+            tab = {"i32::MIN": "i32_min", "i32::MAX": "i32_max", "u64::MAX": "u64_max", "u32::MAX": "(two32 - 1)"}
             if n in tab:
                 return tab[n], ty
+        if "::" in n:
+            en = n.split("::")[-2]
+            en = ctx.self_type if en == "Self" else en
+            if en in ENUMS and len(n.split("::")) == 2:
+                if base not in ENUMS[en]:
+                    raise TErr("enum %s has no variant %s" % (en, base))
+                ctx.used_enums.add(en)
+                return "%s_%s" % (en, base), en
         if base in ctx.consts:
             return base, ctx.consts[base]
         if base == "None":
@@ -715,6 +949,17 @@ def ev(e, env):
         p = path_of(e)
         if p is not None:
             nm, rty = ctx.use_field(p)
+            if env.cur(nm) is not None:
+                return env.cur(nm)
+            env.setcur(nm, (nm, rty))
+            return nm, rty
+        if e[1][0] == "var" and (env.v.get(e[1][1], (None, None))[1] or "").startswith("localstruct:"):
+            T = env.v[e[1][1]][1].split(":")[1]
+            if e[2] not in ctx.structs[T]:
+                raise TErr("struct %s has no field %s" % (T, e[2]))
+            return env.v["%s_%s" % (e[1][1], e[2])]
+        if slot_of(e[1], env) is not None:
+            nm, rty = slot_field(env, slot_of(e[1], env)[0], e[2])
             if env.cur(nm) is not None:
                 return env.cur(nm)
             env.setcur(nm, (nm, rty))
@@ -733,6 +978,13 @@ def ev(e, env):
     if k == "cast":
         s, t = ev(e[2], env)
         ty = e[1]
+        if (t, ty) == ("f64", "u32"):
+            # truncating, saturating, NaN -> 0 like `as u64`, with the smaller ceiling: min(u32::MAX, x as u64)
+            ctx.uses_float = True
+            return "(Z.min (two32 - 1) (Select.f64_as_u64 %s))" % s, ty
+        if (t, ty) == ("u32", "f64"):
+            ctx.uses_float = True
+            return "(Select.f64_of_u64 %s)" % s, ty      # exact: every u32 is a u64 below 2^53
         if (t, ty) in FCAST:
             ctx.uses_float = True
             return "(%s %s)" % (FCAST[(t, ty)], s), ty
@@ -742,6 +994,10 @@ def ev(e, env):
             if t in ("u32", "u8", "u16", None) or ty == t or (t == "usize" and ty == "u64") or (t == "u32" and ty in ("u64", "usize", "i64")):
                 return s, ty
             if t == "i32" and ty == "i64":
+                return s, ty
+            if ty == "u32" and t in ("u64", "usize", "i32", "i64"):
+                return "(%s mod two32)" % s, ty          # `as u32` keeps the low 32 bits (two's complement for a negative value)
+            if ty in ("u64", "usize") and t in ("u64", "usize"):
                 return s, ty
             raise TErr("cast %s as %s" % (t, ty))
         raise TErr("cast to %s" % ty)
@@ -767,8 +1023,32 @@ def ev(e, env):
             if t == "bool":
                 r = "(Bool.eqb %s %s)" % (sa, sb)
                 return (r if op == "==" else "(negb %s)" % r), "bool"
-            if t is not None and t.startswith("Option"):
-                raise TErr("comparison on Option")
+            if ta in ENUMS or tb in ENUMS:
+                if ta != tb or op not in ("==", "!="):
+                    raise TErr("operator %s on %s and %s" % (op, ta, tb))
+                ctx.used_enums.add(ta)
+                r = "(%s_eqb %s %s)" % (ta, sa, sb)
+                return (r if op == "==" else "(negb %s)" % r), "bool"
+            if (ta or "").startswith("Option") or (tb or "").startswith("Option"):
+                # `opt == Some(e)` / `opt == None` (either side); anything else is outside the subset
+                if op not in ("==", "!="):
+                    raise TErr("ordering comparison on Option")
+                x, y = (a, b) if strip_paren(b)[0] in ("fcall", "var") and is_some_or_none(strip_paren(b)) else (b, a)
+                y = strip_paren(y)
+                if not is_some_or_none(y):
+                    raise TErr("comparison of two Option values")
+                sx, tx = ev(x, env)
+                if not ((tx or "").startswith("Option<") and tx[7:-1].strip() in INT_TYPES):
+                    raise TErr("comparison on %s" % tx)
+                if y[0] == "var":
+                    r = "(match %s with Some _ => false | None => true end)" % sx
+                else:
+                    env2 = env.copy()
+                    ctx.fresh += 1
+                    cv = "o_%d" % ctx.fresh
+                    sy, _ = ev(y[2][0], env)
+                    r = "(match %s with Some %s => (%s =? %s) | None => false end)" % (sx, cv, cv, sy)
+                return (r if op == "==" else "(negb %s)" % r), "bool"
             tab = {"==": "(%s =? %s)", "!=": "(negb (%s =? %s))", "<": "(%s <? %s)", ">": "(%s <? %s)",
                    "<=": "(%s <=? %s)", ">=": "(%s <=? %s)"}
             if op in (">", ">="):
@@ -780,6 +1060,14 @@ def ev(e, env):
             return "(%s %s %s)" % (sa, op, sb), t
         if op == "/":
             return "(Z.quot %s %s)" % (sa, sb), t
+        if op in ("&", "|", "%", ">>") and ta in INT_TYPES | {None} and tb in INT_TYPES | {None} and t is not None:
+            if op != ">>" and ta is not None and tb is not None and ta != tb:
+                raise TErr("operator %s on %s and %s" % (op, ta, tb))
+            # bitwise and/or and a right shift of non-negative values stay in the type; `%` truncates like `/`
+            if op in ("&", "|") and t not in ("u8", "u16", "u32", "u64", "usize"):
+                raise TErr("operator %s on signed %s" % (op, t))
+            fn = {"&": "Z.land", "|": "Z.lor", "%": "Z.rem", ">>": "Z.shiftr"}[op]
+            return "(%s %s %s)" % (fn, sa, sb), (ta or tb) if op != ">>" else ta
         raise TErr("operator %s" % op)
     if k == "call":
         name, recv, args = e[1], e[2], e[3]
@@ -800,6 +1088,22 @@ def ev(e, env):
             sb, _ = ev(cl[2], env2)
             dflt = "true" if name == "is_none_or" else "false"
             return "(match %s with Some %s => %s | None => %s end)" % (sr, cv, sb, dflt), "bool"
+        if slot_of(recv, env) is not None:
+            sname, T = slot_of(recv, env)
+            callee = REGISTRY.get((T, name))
+            if callee is None or callee["outs"]:
+                raise TErr("method %s on an element of type %s" % (name, T))
+            if len(args) != callee["nparams"]:
+                raise TErr("call of %s with %d arguments" % (callee["coq"], len(args)))
+            actual = []
+            for origin in callee["origins"]:
+                if origin[0] == "field":
+                    if len(origin[1]) != 1 or origin[2]:
+                        raise TErr("callee input %s on a slot" % (origin[1],))
+                    actual.append(ev(("field", ("var", sname), origin[1][0]), env)[0])
+                else:
+                    actual.append("(%s)" % ev(args[origin[1]], env)[0])
+            return "(leaf_%s %s)" % (callee["coq"], " ".join(actual)), callee["rtype"]
         found = find_callee(recv, name, ctx)
         if found is not None:
             callee, base = found
@@ -825,11 +1129,21 @@ def ev(e, env):
             if rty == "f64":
                 ctx.uses_float = True
             return nm, rty
+        if name == "len" and not args and recv[0] == "var" and env.v.get(recv[1], (None, None))[1] == "slice":
+            return recv[1] + "_len", "usize"             # length of a `&[u8]` parameter: an input of its own
+        if name == "len" and not args and path_of(recv) is not None and vec_field(ctx, path_of(recv)):
+            nm = vec_len_name(ctx, path_of(recv))
+            if env.cur(nm) is not None:
+                return env.cur(nm)
+            env.setcur(nm, (nm, "usize"))
+            return nm, "usize"
         if name == "is_empty":
             p = path_of(recv)
             if p is None:
                 raise TErr("is_empty on non-field")
             nm = "_".join(p) + "_is_empty"
+            if "_".join(p) + "_len" in ctx.ptype:
+                raise TErr("self.%s: both is_empty() and len()/push() in one function" % ".".join(p))
             FIELD_PATHS[(id(ctx), nm)] = list(p) + ["is_empty()"]
             if nm not in ctx.ptype:
                 ctx.ptype[nm] = "bool"
@@ -837,6 +1151,9 @@ def ev(e, env):
             return nm, "bool"
         sr, tr = ev(recv, env)
         sargs = [ev(a, env) for a in args]
+        if name == "is_finite" and not args and tr == "f64":
+            ctx.uses_float = True
+            return "(PrimFloat.is_finite %s)" % sr, "bool"
         if name in ("min", "max") and "f64" in (tr, sargs[0][1]):
             if not (tr in ("f64", None) and sargs[0][1] in ("f64", None)):
                 raise TErr("f64 %s on %s and %s" % (name, tr, sargs[0][1]))
@@ -862,6 +1179,13 @@ def ev(e, env):
             if callee["outs"]:
                 raise TErr("call to mutating function %s in expression position" % name)
             return "(leaf_%s %s)" % (callee["coq"], " ".join(call_actuals(callee, None, args, env))), callee["rtype"]
+        if name in OPAQUE_FNS and callee is None:
+            if not all(pure_expr(a) for a in args):
+                raise TErr("argument of %s with a possible effect" % name)
+            note = "%s(..) is not translated here (wire codec, property C15): its value is tt" % name
+            if note not in ctx.notes:
+                ctx.notes.append(note)
+            return "tt", OPAQUE_FNS[name]
         sargs = [ev(a, env) for a in args]
         if name in ("min", "max") and len(sargs) == 2:
             return "(Z.%s %s %s)" % (name, sargs[0][0], sargs[1][0]), sargs[0][1] or sargs[1][1]
@@ -877,12 +1201,31 @@ def ev(e, env):
         if "f64" in tys and any(t != "f64" for t in tys):
             raise TErr("conditional expression mixing f64 and %s" % [t for t in tys if t != "f64"][0])
         return r, (tys[0] if tys else None)
+    if k == "tuple":
+        parts = [ev(x, env) for x in e[1]]
+        return "(" + ", ".join(p_[0] for p_ in parts) + ")", "(" + ", ".join(str(p_[1]) for p_ in parts) + ")"
+    if k == "rmw":
+        _, op, rty, target, arg = e
+        nm, _ = ctx.use_field(path_of(target), atomic=True)
+        cur = env.cur(nm, (nm, rty))[0]
+        sa, ta = ev(arg, env)
+        if ta not in (rty, None):
+            raise TErr("%s of a %s into an atomic %s" % (op, ta, rty))
+        if op == "fetch_add":
+            return "((%s + %s) mod %s)" % (cur, sa, {"u64": "two64", "usize": "two64", "u32": "two32"}[rty]), rty
+        return "(Z.%s %s %s)" % (op[6:], cur, sa), rty
     if k == "string":
         raise TErr("string value")
     raise TErr("expression kind %s" % k)
 
 
 def lvalue_name(e, env):
+    if e[0] == "field" and e[1][0] == "var" and e[1][1] in env.ctx.local_structs:
+        if e[2] not in env.ctx.structs[env.ctx.local_structs[e[1][1]]]:
+            raise TErr("struct %s has no field %s" % (env.ctx.local_structs[e[1][1]], e[2]))
+        return "%s_%s" % (e[1][1], e[2])
+    if e[0] == "field" and slot_of(e[1], env) is not None:
+        return slot_field(env, slot_of(e[1], env)[0], e[2])[0]
     if e[0] == "deref":
         e = e[1]
     if e[0] == "var":
@@ -907,7 +1250,10 @@ def has_string(e):
 
 
 def state_tuple(env, names, ret):
-    parts = [env.cur(n, (n, None))[0] for n in names]
+    parts = [env.v[n][0] if n in env.ctx.pseudo and n in env.v else env.ctx.pseudo[n] if n in env.ctx.pseudo
+             else env.cur(n, (n, None))[0] for n in names]
+    if None in parts:
+        raise TErr("an array element is accessed on some paths only")
     if ret is not None:
         parts.append(ret)
     if not parts:
@@ -924,6 +1270,24 @@ def effect_call(e, env):
     ctx = env.ctx
     if e[0] == "call" and e[1] == "store" and path_of(e[2]) is not None and len(e[3]) == 2 and is_ordering(e[3][1]):
         return ("store", e[2], e[3][0])
+    if e[0] == "call" and e[1] in ("fetch_max", "fetch_min", "fetch_add") and path_of(e[2]) is not None and len(e[3]) == 2 \
+            and is_ordering(e[3][1]):
+        # read-modify-write of an atomic as a statement (the old value it returns is dropped):
+        # fetch_max/min = store of Z.max/Z.min, fetch_add = store of the WRAPPING sum (atomics wrap, never panic)
+        nm, rty = ctx.use_field(path_of(e[2]), atomic=True)
+        if rty not in ("u64", "usize", "u32"):
+            raise TErr("%s on an atomic %s" % (e[1], rty))
+        return ("store", e[2], ("rmw", e[1], rty, e[2], e[3][0]))
+    if e[0] == "call" and e[1] == "push" and len(e[3]) == 1 and path_of(e[2]) is not None and vec_field(ctx, path_of(e[2])):
+        return ("push", vec_len_name(ctx, path_of(e[2])))
+    if e[0] == "call" and e[2] == ("var", "self") and (ctx.self_type, e[1]) in OPAQUE_EFFECTS:
+        return ("delegate", "call_" + e[1], e[3])
+    if e[0] == "call" and e[1] == "copy_from_slice" and path_of(e[2]) is not None and len(e[3]) == 1 \
+            and norm_type(ctx.field_type(path_of(e[2])) or "") == "bytes" and e[3][0][0] == "slice" \
+            and e[3][0][1][0] == "var" and env.v.get(e[3][0][1][1], (None, None))[1] == "slice":
+        # self.<byte array>.copy_from_slice(&<slice param>[lo..hi]): the bytes are not translated; WHICH range of
+        # the parameter is copied is an explicit output `<field>_from_<param> : option (lo, hi)`
+        return ("copy", "_".join(path_of(e[2])) + "_from_" + e[3][0][1][1], e[3][0][2], e[3][0][3], path_of(e[2]))
     callee, base, args = None, None, None
     if e[0] == "call":
         found = find_callee(e[2], e[1], ctx)
@@ -954,17 +1318,80 @@ def effect_lvalue_name(lv, env):
     return lvalue_name(e, env)
 
 
+def default_struct(s, env):
+    """`let [mut] x = T::default();` for a struct T with #[derive(Default)] all of whose fields are Options
+    (so every field starts as None) -> T ; else None"""
+    if s[0] != "let" or s[2][0] != "fcall" or s[2][2] or not s[2][1].endswith("::default"):
+        return None
+    T = s[2][1].split("::")[-2]
+    flds = env.ctx.structs.get(T)
+    if not flds or T not in DEFAULT_DERIVED or not all(t.startswith("Option<") for t in flds.values()):
+        raise TErr("%s::default() (only a #[derive(Default)] struct of Option fields is known)" % T)
+    return T
+
+
+def slot_binding(s, env):
+    """`let x = &[mut] self.<field>[i];` with <field> an array of a known struct -> (x, T, field path, index expr)"""
+    if s[0] != "let" or s[2][0] != "index" or path_of(s[2][1]) is None:
+        return None
+    fty = env.ctx.field_type(path_of(s[2][1])) or ""
+    m = re.match(r"(?:Box<\s*)?\[\s*(\w+)\s*;\s*([^\]]*?)\s*\]\s*>?$", fty)
+    if not m or m.group(1) not in env.ctx.structs:
+        raise TErr("indexing self.%s of type %s" % (".".join(path_of(s[2][1])), fty))
+    env.ctx.slot_len[s[1]] = m.group(2)
+    return s[1], m.group(1), path_of(s[2][1]), s[2][2]
+
+
+def bind_slot(env, name, T, path):
+    ctx = env.ctx
+    idx, ty = [], ctx.self_type
+    for f in path:
+        idx.append(list(ctx.structs[ty]).index(f))
+        ty = ctx.structs[ty][f]
+    ctx.slot_base[name] = tuple(idx)
+    ctx.slot_keys[name + "_slot"] = tuple(idx)
+    ctx.pseudo.setdefault(name + "_slot", None)
+    env.v[name] = (name, "slot:" + T)
+
+
 def collect_assigned(stmts, env, acc):
     for s in stmts:
-        if s[0] == "assign":
+        if default_struct(s, env) is not None:
+            env.ctx.local_structs[s[1]] = default_struct(s, env)
+        elif slot_binding(s, env) is not None:
+            name, T, path, _ = slot_binding(s, env)
+            bind_slot(env, name, T, path)
+            acc.append(name + "_slot")
+        elif s[0] == "assign" and s[2][0] == "structlit":
+            so = slot_of(s[1], env)
+            if so is None or s[1][0] != "deref":
+                raise TErr("struct literal assigned to something else than `*<slot local>`")
+            for f in env.ctx.structs[so[1]]:
+                n = slot_field(env, so[0], f)[0]
+                if n not in acc:
+                    acc.append(n)
+        elif s[0] == "assign":
             n = lvalue_name(s[1], env)
             if n not in acc:
                 acc.append(n)
         elif s[0] == "exprstmt" and effect_call(s[1], env) is not None:
             eff = effect_call(s[1], env)
-            names = [env.ctx.use_field(path_of(eff[1]), atomic=True)[0]] if eff[0] == "store" else \
-                [effect_lvalue_name(lv, env) for lv in eff[4]]
+            if eff[0] == "push":
+                names = [eff[1]]
+            elif eff[0] in ("delegate", "copy"):
+                env.ctx.pseudo.setdefault(eff[1], "None")
+                if eff[0] == "copy":
+                    FIELD_PATHS[(id(env.ctx), eff[1])] = list(eff[4])
+                names = [eff[1]]
+            else:
+                names = [env.ctx.use_field(path_of(eff[1]), atomic=True)[0]] if eff[0] == "store" else \
+                    [effect_lvalue_name(lv, env) for lv in eff[4]]
             for n in names:
+                if n not in acc:
+                    acc.append(n)
+        elif s[0] in ("let", "tail", "return") and s[-1] is not None and valued_effect(s[-1], env) is not None:
+            for lv in effect_call(valued_effect(s[-1], env)[0], env)[4]:
+                n = effect_lvalue_name(lv, env)
                 if n not in acc:
                     acc.append(n)
         elif s[0] == "letelse":
@@ -1011,9 +1438,46 @@ def describe(e):
     return e[0]
 
 
+def valued_effect(e, env):
+    """`f(..)` / `Some(f(..))` where f is a translated function WITH outputs and a return value ->
+    (call expr, wrap in Some?) ; None otherwise"""
+    e = strip_paren(e)
+    wrap = False
+    if e[0] == "fcall" and e[1] == "Some" and len(e[2]) == 1:
+        e, wrap = strip_paren(e[2][0]), True
+    if e[0] in ("call", "fcall"):
+        eff = effect_call(e, env)
+        if eff is not None and eff[0] == "call" and eff[1]["outs"] and eff[1]["rtype"]:
+            return e, wrap
+    return None
+
+
 def run_stmts(stmts, env, outs, has_ret):
     """Translate a statement list into a Coq expression of the function's result type.
     outs: ordered names of mutated lvalues; has_ret: function returns a value."""
+    if stmts and stmts[0][0] in ("let", "tail", "return") and stmts[0][1 if stmts[0][0] != "let" else 2] is not None \
+            and valued_effect(stmts[0][1 if stmts[0][0] != "let" else 2], env) is not None:
+        # hoist: `let x = f(..)` / `Some(f(..))` with a mutating f becomes `let '(outs.., r) := leaf_f .. in ..`
+        s0 = stmts[0]
+        call_e, wrap = valued_effect(s0[2] if s0[0] == "let" else s0[1], env)
+        _, callee, base, args, lvs = effect_call(call_e, env)
+        call = "(leaf_%s %s)" % (callee["coq"], " ".join(call_actuals(callee, base, args, env)))
+        names = [effect_lvalue_name(lv, env) for lv in lvs]
+        if len(set(names)) != len(names):
+            raise TErr("aliased outputs in call of %s" % callee["coq"])
+        tmps = []
+        for n in names:
+            cur_t = env.cur(n, (None, env.ctx.ptype.get(n)))[1]
+            env.ctx.fresh += 1
+            tmps.append("%s_%d" % (n, env.ctx.fresh))
+            env.setcur(n, (tmps[-1], cur_t))
+        env.ctx.fresh += 1
+        rv = "ret_%d" % env.ctx.fresh
+        rty = norm_type(callee["rtype"])
+        env.v[rv] = (rv, rty)
+        val = ("fcall", "Some", [("var", rv)]) if wrap else ("var", rv)
+        s1 = ("let", s0[1], val) if s0[0] == "let" else (s0[0], val)
+        return "(let '(%s) := %s in %s)" % (", ".join(tmps + [rv]), call, run_stmts([s1] + list(stmts[1:]), env, outs, has_ret))
     if not stmts:
         if has_ret:
             raise TErr("fell off the end of a value-returning block")
@@ -1022,6 +1486,43 @@ def run_stmts(stmts, env, outs, has_ret):
     k = s[0]
     if k in ("skip",):
         return run_stmts(rest, env, outs, has_ret)
+    if k == "let" and default_struct(s, env) is not None:
+        T = default_struct(s, env)
+        env.ctx.local_structs[s[1]] = T
+        env.v[s[1]] = (s[1], "localstruct:" + T)
+        for f in env.ctx.structs[T]:
+            env.v["%s_%s" % (s[1], f)] = ("None", "Option<?>")
+            env.ctx.local_names.add("%s_%s" % (s[1], f))
+        return run_stmts(rest, env, outs, has_ret)
+    if k == "let" and slot_binding(s, env) is not None:
+        # which element is accessed is an output (<local>_slot); the element's fields are inputs/outputs
+        name, T, path, ie = slot_binding(s, env)
+        si, ti = ev(ie, env)
+        if ti not in ("usize", None):
+            raise TErr("index of type %s" % ti)
+        bind_slot(env, name, T, path)
+        env.v[name + "_slot"] = (name + "_slot", "usize")
+        env.ctx.local_names.add(name + "_slot")
+        return "(let %s_slot := %s in %s)" % (name, si, run_stmts(rest, env, outs, has_ret))
+    if k == "assign" and s[2][0] == "structlit":
+        so = slot_of(s[1], env)
+        if so is None or s[1][0] != "deref":
+            raise TErr("struct literal assigned to something else than `*<slot local>`")
+        flds = env.ctx.structs[so[1]]
+        if s[2][1] != so[1] or sorted(f for f, _ in s[2][2]) != sorted(flds):
+            raise TErr("struct literal %s does not give exactly the fields of %s" % (s[2][1], so[1]))
+        vals = [(f, ev(e2, env)) for f, e2 in s[2][2]]             # all right-hand sides first, in source order
+        binds = []
+        for f, (se, te) in vals:
+            n = slot_field(env, so[0], f)[0]
+            env.ctx.fresh += 1
+            tmp = "%s_%d" % (n, env.ctx.fresh)
+            env.setcur(n, (tmp, env.ctx.ptype[n]))
+            binds.append((tmp, se))
+        body = run_stmts(rest, env, outs, has_ret)
+        for tmp, se in reversed(binds):
+            body = "(let %s := %s in %s)" % (tmp, se, body)
+        return body
     if k == "let":
         if has_string(s[2]):
             return run_stmts(rest, env, outs, has_ret)
@@ -1043,6 +1544,26 @@ def run_stmts(stmts, env, outs, has_ret):
         return "(match %s with Some %s => %s | None => %s end)" % (sc, lv, a, b)
     if k == "exprstmt" and effect_call(s[1], env) is not None:
         eff = effect_call(s[1], env)
+        if eff[0] == "push":
+            n = eff[1]
+            cur = env.cur(n, (n, "usize"))[0]
+            env.ctx.fresh += 1
+            tmp = "%s_%d" % (n, env.ctx.fresh)
+            env.setcur(n, (tmp, "usize"))
+            return "(let %s := (%s + 1) in %s)" % (tmp, cur, run_stmts(rest, env, outs, has_ret))
+        if eff[0] == "delegate":
+            # the callee may change anything: nothing of self may be read or written after it on this path
+            if not (not rest or rest[0] == ("return", None)):
+                raise TErr("untranslated method %s is not the last effect of its path" % eff[1][5:])
+            if has_ret:
+                raise TErr("untranslated method %s called in a value-returning function" % eff[1][5:])
+            sargs = [ev(a, env)[0] for a in eff[2]]
+            env.v[eff[1]] = ("(Some %s)" % ("tt" if not sargs else sargs[0] if len(sargs) == 1 else "(" + ", ".join(sargs) + ")"), None)
+            return state_tuple(env, outs, None)
+        if eff[0] == "copy":
+            lo, hi = ev(eff[2], env)[0], ev(eff[3], env)[0]
+            env.v[eff[1]] = ("(Some (%s, %s))" % (lo, hi), None)
+            return run_stmts(rest, env, outs, has_ret)
         if eff[0] == "store":
             n = env.ctx.use_field(path_of(eff[1]), atomic=True)[0]
             se, te = ev(eff[2], env)
@@ -1069,6 +1590,8 @@ def run_stmts(stmts, env, outs, has_ret):
     if k == "assign":
         n = lvalue_name(s[1], env)
         se, te = ev(s[2], env)
+        if se == "None" and n in env.ctx.ptype:
+            se = "(@None %s)" % coq_type(env.ctx.ptype[n])[7:]       # `None` alone does not determine its type
         cur_t = env.cur(n, (None, te))[1]
         env.fresh = getattr(env, "fresh", 0)
         env.ctx.fresh += 1
@@ -1126,6 +1649,10 @@ def run_cond(e, rest, env, outs, has_ret):
                 cp = "Some %s" % en.bind(m.group(1), inner)
             elif pat in ("None", "_"):
                 cp = pat
+            elif tsc in ENUMS and "::" in pat and pat.split("::")[-1] in ENUMS[tsc] and \
+                    pat.split("::")[:-1] in ([tsc], ["Self"] if env.ctx.self_type == tsc else [tsc]):
+                env.ctx.used_enums.add(tsc)
+                cp = "%s_%s" % (tsc, pat.split("::")[-1])
             else:
                 raise TErr("match pattern %s" % pat)
             arms.append("%s => %s" % (cp, run_stmts(list(body) + list(rest), en, outs, has_ret)))
@@ -1148,12 +1675,26 @@ def translate(coq_name, rel, impl, fn, srcs, structs, consts):
     pos = 0
     for p in [x.strip() for x in re.split(r",(?![^<]*>)", params) if x.strip()]:
         if p in ("&self", "&mut self", "self"):
+            if impl in ENUMS:
+                # method of a field-less enum: `self` is the value, first parameter `this`
+                fparams.append(("this", impl))
+                fpos["this"] = -1
+                env.v["self"] = ("this", impl)
+                ctx.used_enums.add(impl)
             continue
         nm, ty = [x.strip() for x in p.split(":", 1)]
         nm = nm.replace("mut ", "").strip()
-        ty = ty.replace("&mut ", "").replace("&", "").strip()
+        ty = norm_type(ty.replace("&mut ", "").replace("&", "").strip())
+        if ty == "Self":
+            ty = impl
         pos += 1
         if ty in ("str", "String") or nm.startswith("_"):
+            continue
+        if ty == "slice":
+            # a `&[u8]` parameter: only its length is an input (<name>_len); its bytes are not translated
+            fparams.append((nm + "_len", "usize"))
+            fpos[nm + "_len"] = pos - 1
+            env.v[nm] = (nm, "slice")
             continue
         fparams.append((nm, ty))
         fpos[nm] = pos - 1
@@ -1162,12 +1703,16 @@ def translate(coq_name, rel, impl, fn, srcs, structs, consts):
     stmts = P(tokenize(body)).block_from_start()
     outs = collect_assigned(stmts, env, [])
     # only lvalues that are parameters or self fields count as outputs (locals are lets)
-    outs = [n for n in outs if n in ctx.ptype or n in [a for a, _ in fparams]]
+    outs = [n for n in outs if n in ctx.ptype or n in [a for a, _ in fparams] or n in ctx.pseudo]
     canonical = GROUP.get(coq_name) in CANONICAL_GROUPS
 
     def canon_key(n):
         if n in fpos:
             return (2, (fpos[n],), n)
+        if n in ctx.slot_keys:
+            return (0, ctx.slot_keys[n], n)
+        if n in ctx.pseudo and (id(ctx), n) not in FIELD_PATHS:
+            return (3, (), n)
         path = FIELD_PATHS[(id(ctx), n)]
         idx, ty = [], impl
         for f in path:
@@ -1179,6 +1724,11 @@ def translate(coq_name, rel, impl, fn, srcs, structs, consts):
     if canonical:
         outs = sorted(outs, key=canon_key)
     has_ret = bool(ret)
+    if ret:
+        ret = norm_type(ret)
+        ret = impl if ret == "Self" else ret
+        if ret in ENUMS:
+            ctx.used_enums.add(ret)
     expr = run_stmts(stmts, env, outs, has_ret)
     used = lambda n: re.search(r"\b%s\b" % re.escape(n), expr) is not None
     plist = [(n, t) for n, t in ctx.params]
@@ -1189,7 +1739,9 @@ def translate(coq_name, rel, impl, fn, srcs, structs, consts):
     fnames = [n for n, _ in fparams]
     atomics = getattr(ctx, "atomic_names", set())
     for n, _ in plist:
-        if n in fnames:
+        if n == "this" and impl in ENUMS:
+            origins.append(("this",))
+        elif n in fnames:
             origins.append(("arg", fpos[n]))
         else:
             origins.append(("field", FIELD_PATHS[(id(ctx), n)], n in atomics))
@@ -1204,6 +1756,18 @@ def translate(coq_name, rel, impl, fn, srcs, structs, consts):
     if ctx.uses_float:
         ctx.notes.append("f64 values are Coq primitive floats (binary64, bit-exact); comparisons PrimFloat.ltb/leb/eqb, "
                          "`as`/min/max by the Rust f64 primitives of Model/Select.v")
+    for n in outs:
+        if n in ctx.pseudo and n.startswith("call_"):
+            ctx.notes.append("%s = Some (arguments): self.%s(..), which is not translated and may change any field, is "
+                             "called as the LAST effect of that path; None on the other paths" % (n, n[5:]))
+        elif n in ctx.pseudo and n.endswith("_slot"):
+            ctx.notes.append("%s = index of the one array element this function accesses; %s_<field> = that element's "
+                             "fields (inputs: before, outputs: after); the array has %s elements, an index not below that "
+                             "panics (not modelled here: Proofs/LeafTrkP.v shows the index in range)"
+                             % (n, n[:-5], ctx.slot_len.get(n[:-5], "?")))
+        elif n in ctx.pseudo:
+            ctx.notes.append("%s = Some (lo, hi): that range of the slice parameter is copied into the byte array (bytes "
+                             "themselves are not translated); None where nothing is copied" % n)
     for note in ctx.notes:
         doc += "\n(* %s *)" % note
     text = "%s\nDefinition leaf_%s %s :=\n  %s.\n" % (doc, coq_name, sig, expr)
@@ -1212,7 +1776,7 @@ def translate(coq_name, rel, impl, fn, srcs, structs, consts):
                  "conditions *)\nDefinition leaf_%s_asserts : bool :=\n  %s.\n"
                  % (fn, coq_name, " && ".join(ctx.asserts) or "true"))
     return text, {"params": [n for n, _ in plist], "outs": outs, "ret": has_ret, "float": ctx.uses_float,
-                  "asserts": len(ctx.asserts)}
+                  "asserts": len(ctx.asserts), "enums": sorted(ctx.used_enums)}
 
 
 def block_from_start(self):
@@ -1247,7 +1811,21 @@ def main():
             extra[rel] = strip_comments(open(os.path.join(REPO, rel)).read())
         except OSError:
             pass
+    for _, rel, _, _ in LEAVES:
+        if rel not in extra and srcs.get(rel):
+            extra[rel] = srcs[rel]
+    for rel in [CORE + "registration/probing.rs"]:
+        try:
+            extra[rel] = strip_comments(open(os.path.join(REPO, rel)).read())
+        except OSError:
+            pass
     structs = struct_fields(extra)
+    ENUMS.clear()
+    ENUMS.update(enum_variants(extra))
+    for src in extra.values():
+        for m in re.finditer(r"#\[derive\(([^)]*)\)\]\s*(?:#\[[^\]]*\]\s*)*pub\s+struct\s+(\w+)", src):
+            if "Default" in [x.strip() for x in m.group(1).split(",")]:
+                DEFAULT_DERIVED.add(m.group(2))
     consts = const_types()
     defs, meta, failed = {}, {}, {}
     for coq_name, rel, impl, fn in LEAVES:
@@ -1268,6 +1846,16 @@ def main():
             hdr = ("(* GENERATED by tools/gen_leaf.py from the Rust sources under %s on every run. Do not edit. *)\n"
                    "From Coq Require Import ZArith Bool Floats.\nFrom Srtla Require Import Base Constants FConstants.\n"
                    "From Srtla Require Select.\nOpen Scope Z_scope.\n\n" % REPO)
+        used = []
+        for n, m in meta.items():
+            if m.get("group") == g:
+                used += [e for e in m.get("enums", []) if e not in used]
+        if used:
+            hdr += "\n".join(enum_decl(e) for e in sorted(used)) + "\n"
+        deps = sorted({GROUP[c] for c in re.findall(r"\bleaf_(\w+)", "\n".join(ds)) if c in GROUP} - {g})
+        if deps:                                       # calls of leaves of another group
+            hdr = hdr.replace("Open Scope Z_scope.", "From Srtla Require Import %s.\nOpen Scope Z_scope." %
+                              " ".join("Leaf" + d for d in deps), 1)
         content = hdr + "\n".join(ds)
         out = os.path.join(OUTDIR, "Leaf%s.v" % g)
         try:
